@@ -47,7 +47,10 @@ struct MemReader : public FileReader {
   int reads = 0;
   Status ReadFile(const std::string& path, std::string* contents, std::string* err) override {
     ++reads;
-    auto i = files.find(path);
+    // like a file system, the in-memory one finds a file under every spelling of its name ("./a.ninja", "x/../a.ninja")
+    std::string canon = path;
+    if (!canon.empty()) { uint64_t bits; CanonicalizePath(&canon, &bits); }
+    auto i = files.find(canon);
     if (i == files.end()) { *err = "No such file or directory"; return NotFound; }
     *contents = i->second;
     return Okay;
